@@ -133,7 +133,49 @@ def t08_sel(run, fx):
         run.fail(rule, "selection:ordered-search", "MappingsToKeep::new selects mappings with %s (contains sites: %d): the result depends on the order of the caller's glyph list" % (bad or "no membership test", contains), "%s:%s" % (b.file, b.line))
 
 
+def t08_tgt(run, fx):
+    rule = "T08-TGT"
+    run.rule(rule, "the requested cmap target reaches the selection unchanged: in prince::subset the arm for PrinceCmapTarget::X builds "
+                   "MappingsToKeep::new(.., CmapTarget::X) for X in {Unrestricted, MacRoman} (a Mac Roman request served with the unrestricted "
+                   "target keeps characters the target encoding cannot express)")
+    bs = [b for b in fx.bodies if b.kind != "Closure" and b.root.endswith("prince::subset")]
+    if not bs:
+        return run.anchor_missing(rule, "subset::prince::subset")
+    b = bs[0]
+    prov = sym.Prov(b)
+    adt = fx.adt("subset::prince::PrinceCmapTarget")
+    names = {i: v["name"] for i, v in enumerate(adt["variants"])} if adt else {}
+    sw = None
+    for bi in range(len(b.blocks)):
+        t = b.term(bi)
+        if t["k"] == "switch" and b.reachable(bi):
+            d = sym.strip(prov.op(t["discr"]))
+            if sw is None and len(t["arms"]) >= 3 and d[0] == "discr" and any(x[0] == "arg" and x[2] == "cmap_target" for x in sym.walk(d)):
+                sw = t
+    if sw is None or not names:
+        return run.anchor_missing(rule, "match on cmap_target in prince::subset")
+    n = 0
+    for val, tgt in sw["arms"]:
+        nm = names.get(val)
+        if nm not in ("Unrestricted", "MacRoman"):
+            continue
+        for bi, t in b.calls():
+            if callee_is(t, "MappingsToKeep::<tables::cmap::subset::OldIds>::new", "MappingsToKeep::<OldIds>::new") or (t["callee"].get("path") or "").endswith("MappingsToKeep::<tables::cmap::subset::OldIds>::new"):
+                if b.dominates(tgt, bi):
+                    n += 1
+                    a = sym.strip(prov.op(t["args"][-1]))
+                    got = a[2] if a[0] == "agg" else sym.show(a)[:30]
+                    if got == nm:
+                        run.ok(rule, "PrinceCmapTarget::%s -> CmapTarget::%s" % (nm, got))
+                    else:
+                        run.fail(rule, "target:%s" % nm, "prince::subset serves PrinceCmapTarget::%s with CmapTarget::%s" % (nm, got), b.loc(t))
+    if n < 2:
+        run.anchor_missing(rule, "MappingsToKeep::new under the Unrestricted and MacRoman arms (found %d)" % n)
+
+
 def check(run, fx, tier, floors=True):
+    if (floors and run.config in (None, "prince")) or any(b.root.endswith("prince::subset") for b in fx.bodies):
+        t08_tgt(run, fx)
     t08_ts(run, fx)
     t08_sel(run, fx)
     rules_C06.check(run, fx, tier, floors)
